@@ -18,7 +18,7 @@ SPEC = dict(
          "universe (one name per family + 4 SCRAM hashes + 2 HT variants + unknown + SCRAM-SHA-1-PLUS) for all 1440 configurations, "
          "plus a second 12-name universe (other X- families, HT with channel binding, doubly-matching HT names, case variants, "
          "empty name) on a 1/8 sample; quick = all 256 subsets of an 8-name universe for all 1440 configurations + all 4096 subsets "
-         "for a seeded 1/36 sample + second universe on a 1/120 sample. Then seeded random: shuffled/duplicated orderings of subsets "
+         "for a seeded 1/16 sample + second universe on a 1/120 sample. Then seeded random: shuffled/duplicated orderings of subsets "
          "(outcome must not change), and random configurations x random offer lists (length <= 10, duplicates) over a ~90-name "
          "space (all 28 HT names, truncated/extended/lower-case/concatenated names, empty name). A group is non-trivial when it "
          "yields >= 2 distinct observations. The oracle (independent of the model) checks on every line: chosen in offered, not "
